@@ -631,8 +631,85 @@ func clip(b []byte, n int) []byte {
 	return b
 }
 
+// c05manyRefs: headers with many references (around the parser's initial table size of 1000 and
+// well beyond), a record on the first and on the last reference with the mate on the other.
+func c05manyRefs(c *Ctx) {
+	for _, n := range []int{1, 2, 999, 1000, 1001, 2500, 70000} {
+		cas := map[string]int{"references": n}
+		guard(c, "bam:many-references", cas, func() {
+			var refs []*sam.Reference
+			for i := 0; i < n; i++ {
+				r, err := sam.NewReference(fmt.Sprintf("c%d", i), "", "", 1000+i, nil, nil)
+				if err != nil {
+					c.Violate("bam:many-references:build", err.Error(), cas)
+					return
+				}
+				refs = append(refs, r)
+			}
+			h, err := sam.NewHeader(nil, refs)
+			if err != nil {
+				c.Violate("bam:many-references:build", err.Error(), cas)
+				return
+			}
+			var buf bytes.Buffer
+			w, err := bam.NewWriter(&buf, h, 1)
+			if err != nil {
+				c.Violate("bam:many-references:writer", err.Error(), cas)
+				return
+			}
+			var want []string
+			for k, ri := range []int{0, n - 1} {
+				rec, err := sam.NewRecord(fmt.Sprintf("r%d", k), refs[ri], refs[n-1-ri], 5+k, 7, 0, 30, []sam.CigarOp{sam.NewCigarOp(sam.CigarMatch, 4)}, []byte("ACGT"), []byte{1, 2, 3, 4}, nil)
+				if err != nil {
+					c.Violate("bam:many-references:build", err.Error(), cas)
+					return
+				}
+				if err := w.Write(rec); err != nil {
+					c.Violate("bam:many-references:write", err.Error(), cas)
+					return
+				}
+				t, _ := rec.MarshalText()
+				want = append(want, string(t))
+			}
+			w.Close()
+			r, err := bam.NewReader(bytes.NewReader(buf.Bytes()), 1)
+			if err != nil {
+				c.Violate("bam:many-references:NewReader", fmt.Sprintf("%d references: %v", n, err), cas)
+				return
+			}
+			defer r.Close()
+			if got := len(r.Header().Refs()); got != n {
+				c.Violate("bam:many-references:count", fmt.Sprintf("%d references written, %d read", n, got), cas)
+				return
+			}
+			t0, _ := h.MarshalText()
+			t1, _ := r.Header().MarshalText()
+			if !bytes.Equal(t0, t1) {
+				c.Violate("bam:many-references:header-differs", fmt.Sprintf("%d references: header text differs at byte %d", n, firstDiff(t0, t1)), cas)
+				return
+			}
+			for k := range want {
+				rec, err := r.Read()
+				if err != nil {
+					c.Violate("bam:many-references:Read-error", fmt.Sprintf("%d references: record %d: %v", n, k, err), cas)
+					return
+				}
+				if t, _ := rec.MarshalText(); string(t) != want[k] {
+					c.Violate("bam:many-references:record-differs", fmt.Sprintf("%d references: record %d read as %q, written %q", n, k, t, want[k]), cas)
+					return
+				}
+			}
+			if _, err := r.Read(); err != io.EOF {
+				c.Violate("bam:many-references:no-eof", fmt.Sprintf("%d references: after the records Read returned %v", n, err), cas)
+			}
+		})
+		c.Eval(1)
+		c.NontrivialN(1)
+	}
+}
+
 func c05(c *Ctx) {
-	c.Rule = "record space split into groups, each a full product with the others at minimal context (and a maximal-context group): G1 scalars name length {1,2,254} x flags {0,4,13,0xffff} x MAPQ {0,255} x pos {-1,0,2^29-1} x mate pos x tlen {min,0,max} x (ref,mate) in {nil,chr1,chr2}^2; G2 CIGAR {none, 1M, one op of each of the ten codes, 65535 x 1M, 1 x (2^28-1)M} x sequence length {0,1,2,3,L4k-1,L4k,L4k+1 (record body exactly 4096 bytes), 65287} over all 16 base codes x quality {absent,present}; G3 every single aux field from {A, c C s S i I at min/0/max, f incl. +-Inf, Z '' and 'x y', H '' and '1AE3', B of each subtype with 0/1/3 elements} and pairs (thorough: all ordered pairs); sequences whose first record ends exactly at, one before and one after a BGZF block end. Each group is written with bam.Writer (wc 1,2), the decompressed bytes compared with an independent BAM encoder (bin field masked), and read back with rd {1,2} x Omit {None, AuxTags, AllVariableLengthData} comparing every field after ALL records were read (retained records must not change). Non-trivial: every record (each differs from the base record in at least one field)."
+	c.Rule = "record space split into groups, each a full product with the others at minimal context (and a maximal-context group): G1 scalars name length {1,2,254} x flags {0,4,13,0xffff} x MAPQ {0,255} x pos {-1,0,2^29-1} x mate pos x tlen {min,0,max} x (ref,mate) in {nil,chr1,chr2}^2; G2 CIGAR {none, 1M, one op of each of the ten codes, 65535 x 1M, 1 x (2^28-1)M} x sequence length {0,1,2,3,L4k-1,L4k,L4k+1 (record body exactly 4096 bytes), 65287} over all 16 base codes x quality {absent,present}; G3 every single aux field from {A, c C s S i I at min/0/max, f incl. +-Inf, Z '' and 'x y', H '' and '1AE3', B of each subtype with 0/1/3 elements} and pairs (thorough: all ordered pairs); sequences whose first record ends exactly at, one before and one after a BGZF block end. Each group is written with bam.Writer (wc 1,2), the decompressed bytes compared with an independent BAM encoder (bin field masked), and read back with rd {1,2} x Omit {None, AuxTags, AllVariableLengthData} comparing every field after ALL records were read (retained records must not change). Also headers with 1, 2, 999, 1000, 1001, 2500 and 70000 references and a record on the first and on the last. Non-trivial: every record (each differs from the base record in at least one field)."
 	groups := c05groups(c.Thorough)
 	if c.Replay != nil {
 		var cas c05case
@@ -672,6 +749,7 @@ func c05(c *Ctx) {
 	for _, k := range names {
 		c.AddExtra("records "+k, int64(len(groups[k])))
 	}
+	c05manyRefs(c)
 	r := groups["G3-aux"][5]
 	c.Sample(map[string]string{"group": "G3-aux", "record": describeRec(&r)})
 	r = groups["G2-alignment"][9]
